@@ -16,8 +16,14 @@ Oracle (invariant of the outbound wire log of the channel):
   1. at most one EOF and at most one CLOSE;
   2. if a peer CLOSE reached the channel, exactly one CLOSE is on the wire at the end;
   3. no DATA / EXTENDED_DATA after this side's EOF or CLOSE;
-  4. after both CLOSEs: the channel is gone from the transport's channel map and a probe
-     ``send``/``send_stderr``/``sendall`` raises and logs nothing.
+  4. after both CLOSEs: the channel is gone from the transport's channel map, and
+     a. (on the history) no operation that STARTED after both CLOSEs had been exchanged puts anything on the wire; the ones that
+        are asked to transmit a payload or a request (send*, sendall*, requests, file write) raise.  "Late" tasks wait for the
+        release and then run 1-4 operations of the whole surface in generated order (send*, shutdown(0|1|2), shutdown_write/_read,
+        close, requests with and without reply, send_exit_status, ChannelStdinFile.close, ChannelFile.write/close);
+     b. (after the run) a probe of 11 operations, order rotated by the history, logs nothing; the transmitting ones raise.
+  5. a peer message handler never raises (Transport.run would end the session); an application operation raises nothing but
+     OSError / EOFError / SSHException.
 For clause 3 the bucket says whether the offending DATA reserved its window *before* the
 EOF/CLOSE was decided (the known ``_send`` window-reservation race: lock released between
 reservation and transmission) or after (a different defect).
@@ -35,14 +41,18 @@ LEVEL = "exploration"
 THOROUGH_WORKERS = 16
 RULE = (
     "1-3 application tasks x 1-3 ops (send n, sendall 3 chunks, send_stderr n, shutdown_write, shutdown(2), close, recv, reply-wanting "
-    "request exec/shell/subsystem/pty, request without reply env/window-change) "
+    "request exec/shell/subsystem/pty, request without reply env/window-change, shutdown_read, shutdown(1), send_exit_status, stdin-file close, "
+    "file write+flush, file close, sendall_stderr) "
     "+ optional transport task (<=4 of peer WINDOW_ADJUST/DATA/EOF/CLOSE/SUCCESS|FAILURE (unsolicited or answering a pending request)/"
     "REQUEST exit-status|unknown x want_reply/settle = wait for quiescence of the applications; transport task first|last in task order) on a real Channel over a fake transport (wire log, "
     "send point = yield point), window in {0,10,2^21}, timeout {0.5,None}; schedules: generated preemption list (<=3 anywhere + "
     "<=2 placed at the n-th switch point between lock release and transmission) in quick; thorough adds all schedules with <=3 "
     "preemptions (lock-level + send point) of every 2-task program with <=2 ops each over a 9-op alphabet and 6 selected 3-task "
     "programs and 8 selected request/reply programs, and all <=2-preemption line-level schedules of the single-op pairs; non-trivial = a task switch happened between "
-    "a lock release in _send/close/shutdown/_handle_close and the corresponding transmission; distinct by SHA-1 of the case"
+    "a lock release in _send/close/shutdown/_handle_close and the corresponding transmission; distinct by SHA-1 of the case. Two further program families: "
+    "'late' (peer CLOSE guaranteed; 1-2 tasks that wait until both CLOSEs are exchanged and then run 1-4 operations of the whole surface in generated "
+    "order: clause 'operations on a released channel fail instead of sending', judged on the history by operation start vs release point) and "
+    "'zero-window' (window 0/10, 2-3 application tasks, peer WINDOW_ADJUST/EOF/CLOSE only after the applications have settled)"
 )
 
 CHUNK = 4096 - 64
@@ -64,8 +74,15 @@ request_op = st.one_of(
     st.tuples(st.just("req"), st.sampled_from(["exec", "shell", "subsystem", "pty"])),
     st.tuples(st.just("req_nr"), st.sampled_from(["env", "resize"])),
 )
+# further operations of the public surface that (may) transmit: the other shutdown variants, the exit-status request, the file
+# wrappers (ChannelStdinFile.close() half-closes; ChannelFile.write()+flush() sends)
+misc_op = st.sampled_from([("shutdown_read",), ("shutdown1",), ("exit_status",), ("stdin_close",), ("file_write",), ("file_close",), ("sendall_stderr", 7)])
 # two levels, so that the request dimension does not thin out the data/close interleavings (3 : 1)
-app_op = st.one_of(data_close_op, data_close_op, data_close_op, request_op)
+app_op = st.one_of(data_close_op, data_close_op.map(lambda v: v), data_close_op.map(lambda v: (v)), request_op, misc_op)
+# "life after release": a task that waits until both CLOSEs have been exchanged (the channel is released on both sides) and
+# then goes on operating on the Channel object, any operations in any order
+late_op = st.one_of(data_close_op, request_op, misc_op, misc_op.map(lambda v: v))
+late_task = st.lists(late_op, min_size=1, max_size=4).map(lambda ops: [("await_released",)] + list(ops))
 stream_peer_op = st.one_of(
     st.tuples(st.just("adjust"), st.sampled_from([0, 5, 10000])),
     st.tuples(st.just("adjust"), st.sampled_from([1, 5, 10000])),
@@ -101,10 +118,52 @@ case_st = st.fixed_dictionaries(
     }
 )
 
+def _with_peer_close(peer, at):
+    peer = list(peer)
+    if ("peer_close",) not in [tuple(p) for p in peer]:
+        peer.insert(at % (len(peer) + 1), ("peer_close",))
+    return peer
+
+
+# programs whose peer closes the channel at some point and that contain at least one "late" task
+late_case_st = st.fixed_dictionaries(
+    {
+        "win": st.sampled_from([2 ** 21, 2 ** 21, 10, 0]),
+        "timeout": st.sampled_from([0.5, 0.5, None]),
+        "peer": st.tuples(st.lists(peer_op, max_size=3), st.integers(0, 3)).map(lambda t: _with_peer_close(t[0], t[1])),
+        "torder": st.sampled_from(["first", "last"]),
+        "apps": st.tuples(st.lists(st.lists(app_op, min_size=1, max_size=3), max_size=2), st.lists(late_task, min_size=1, max_size=2)).map(lambda t: list(t[0]) + list(t[1])),
+        "sched": S.schedule_strategy(max_pre=3, max_gap=50, max_forced=12, max_hot=2, hot_range=10),
+        "trace": st.booleans(),
+    }
+)
+
+# programs on a closed or nearly closed send window: writers park on the window, other tasks shut down / close meanwhile, and the
+# peer's WINDOW_ADJUSTs arrive late (after a "settle" = everybody finished or parked)
+_zw_peer_tail = st.lists(
+    st.one_of(st.tuples(st.just("adjust"), st.sampled_from([1, 5, 10000])), st.tuples(st.just("settle")), st.tuples(st.just("peer_eof")), st.tuples(st.just("peer_close"))),
+    min_size=1,
+    max_size=3,
+)
+zero_window_case_st = st.fixed_dictionaries(
+    {
+        "win": st.sampled_from([0, 0, 10]),
+        "timeout": st.sampled_from([0.5, None, None]),
+        "peer": st.tuples(st.lists(peer_op, max_size=1), _zw_peer_tail).map(lambda t: list(t[0]) + [("settle",)] + list(t[1])),
+        "torder": st.sampled_from(["first", "last"]),
+        "apps": st.lists(st.lists(st.one_of(data_close_op, data_close_op.map(lambda v: v), misc_op), min_size=1, max_size=2), min_size=2, max_size=3),
+        "sched": S.schedule_strategy(max_pre=3, max_gap=50, max_forced=12, max_hot=2, hot_range=10),
+        "trace": st.booleans(),
+    }
+)
+
 TRACED = {
     "send", "send_stderr", "sendall", "sendall_stderr", "_send", "_wait_for_send_window", "close", "_close_internal", "_send_eof",
     "_handle_close", "_handle_eof", "shutdown", "shutdown_write", "_set_closed", "_request_failed", "_unlink",
 }
+# operations that are asked to transmit a payload / a request: on a released channel they raise (the others - shutdown*, close,
+# file close, send_exit_status - may be silent no-ops, but must not send either)
+MUST_RAISE = {"send", "sendall", "sendall3", "send_stderr", "sendall_stderr", "req", "req_nr", "file_write"}
 CRIT_FUNCS = {"_send", "close", "shutdown", "_handle_close", "_request_failed"}
 REPLY_WAIT = 5.0  # virtual seconds a held-back SUCCESS/FAILURE waits for a request to answer
 
@@ -129,6 +188,7 @@ class Bench:
         chan.settimeout(case["timeout"])
         self.peer_close_dispatched = False
         self.op_exc = []
+        self.unexpected = []  # (clause, bucket, detail): exceptions that are no legitimate outcome of an operation
         self.excluded_spin = 0
         self.answered = 0
         self.reply_classes = set()
@@ -137,21 +197,22 @@ class Bench:
         real_eof = chan._send_eof
         real_ci = chan._close_internal
 
-        def wait_for_send_window(size):
-            n = real_wait(size)
+        # (pass-through signatures: the wrappers must not care how the wrapped methods are called)
+        def wait_for_send_window(*a, **kw):
+            n = real_wait(*a, **kw)
             if n:
                 s.note(("reserve", s.current_name(), n))
             return n
 
-        def send_eof():
-            m = real_eof()
+        def send_eof(*a, **kw):
+            m = real_eof(*a, **kw)
             if m is not None:
                 s.note(("eof-built", s.current_name()))
             return m
 
-        def close_internal():
-            r = real_ci()
-            if r[1] is not None:
+        def close_internal(*a, **kw):
+            r = real_ci(*a, **kw)
+            if isinstance(r, tuple) and len(r) > 1 and r[1] is not None:
                 s.note(("close-built", s.current_name()))
             return r
 
@@ -159,11 +220,47 @@ class Bench:
         chan._send_eof = send_eof
         chan._close_internal = close_internal
 
+    def released(self):
+        """Both CLOSEs exchanged: the peer's CLOSE was handled by the channel and ours is on the wire."""
+        return self.peer_close_dispatched and any(w["type"] == "CLOSE" for w in self.ft.wire)
+
     def do(self, op, tname, salt):
+        k = op[0]
+        self.s.note(("op-start", tname, k if k != "req" and k != "req_nr" else "%s:%s" % (k, op[1])))
+        n0 = len(self.op_exc)
+        self._do(op, tname, salt)
+        self.s.note(("op-end", tname, k, self.op_exc[-1][2] if len(self.op_exc) > n0 else None))
+
+    def _do(self, op, tname, salt):
         ft, chan = self.ft, self.chan
         k = op[0]
         try:
-            if k == "send":
+            if k == "await_released":
+                if not self.released():
+                    self.s.block_until(self.released, ("await-both-closes",))
+            elif k == "shutdown_read":
+                chan.shutdown_read()
+            elif k == "shutdown1":
+                chan.shutdown(1)
+            elif k == "exit_status":
+                chan.send_exit_status(salt)
+            elif k == "stdin_close":
+                chan.makefile_stdin("wb").close()
+            elif k == "file_write":
+                f = chan.makefile("wb")
+                f.write(bytes([salt]) * 3)
+                f.flush()
+            elif k == "file_close":
+                chan.makefile("rwb").close()
+            elif k == "sendall_stderr":
+                data = bytes([salt]) * op[1]
+                while data:  # as for sendall3: the real loop may spin after EOF was sent (C25 finding)
+                    n = chan.send_stderr(data)
+                    if n == 0:
+                        self.excluded_spin += 1
+                        break
+                    data = data[n:]
+            elif k == "send":
                 chan.send(bytes([salt]) * op[1])
             elif k == "sendall3":
                 # Channel.sendall's loop, but giving up when send() returns 0: the real loop spins
@@ -221,12 +318,21 @@ class Bench:
             elif k == "peer_close":
                 if ft.deliver(CB.MSG_CHANNEL_CLOSE, 1):
                     self.peer_close_dispatched = True
+                    self.s.note(("peer-close-handled",))
             else:
                 raise HarnessError("bad op %r" % (op,))
         except (S.HarnessAbort, HarnessError):
             raise
         except Exception as e:  # outcome of the operation; C22 judges the wire, not the call results
             self.op_exc.append((tname, k, type(e).__name__))
+            from paramiko.ssh_exception import SSHException
+
+            if tname == "transport":
+                # Transport.run dispatches these handlers on the transport thread: an exception there ends the whole session
+                # (and e.g. leaves the peer's CLOSE unanswered) - never an "outcome"
+                self.unexpected.append(("peer-message-handler-raises", "%s:%s" % (k, type(e).__name__), "%s raised %r" % (list(op), e)))
+            elif not isinstance(e, (OSError, EOFError, SSHException)):  # socket.error/timeout are OSErrors
+                self.unexpected.append(("operation-raises-unexpected-exception", "%s:%s" % (k, type(e).__name__), "%s raised %r" % (list(op), e)))
 
     def _unanswered(self):
         return sum(1 for w in self.ft.wire if w["type"] == "REQUEST" and w.get("want_reply")) - self.answered
@@ -284,7 +390,27 @@ class Bench:
             return n
 
         chan.send = guarded_send
-        for name, call in (("send", lambda: chan.send(b"p")), ("send_stderr", lambda: chan.send_stderr(b"p")), ("sendall", lambda: chan.sendall(b"p"))):
+
+        def file_write():
+            f = chan.makefile("wb")
+            f.write(b"p")
+            f.flush()
+
+        probes = [
+            ("send", lambda: chan.send(b"p")),
+            ("shutdown_write", lambda: chan.shutdown_write()),
+            ("send_stderr", lambda: chan.send_stderr(b"p")),
+            ("stdin_close", lambda: chan.makefile_stdin("wb").close()),
+            ("sendall", lambda: chan.sendall(b"p")),
+            ("shutdown2", lambda: chan.shutdown(2)),
+            ("req", lambda: chan.exec_command(b"p")),
+            ("exit_status", lambda: chan.send_exit_status(1)),
+            ("req_nr", lambda: chan.resize_pty(9, 9)),
+            ("file_write", file_write),
+            ("close", lambda: chan.close()),
+        ]
+        r0 = len(ft.wire) % len(probes)  # order: rotated by the history
+        for name, call in probes[r0:] + probes[:r0]:
             before = len(ft.wire) + len(ft.dropped)
             try:
                 r = call()
@@ -304,7 +430,7 @@ class Bench:
 
 
 def judge(bench, res):
-    viol = []
+    viol = list(bench.unexpected)
     classes = set()
     wire = bench.ft.wire
     log = res.log
@@ -351,7 +477,32 @@ def judge(bench, res):
             viol.append(("data-after-eof-or-close", how, "%s (%d bytes, task %s) follows %s on the wire: %r" % (w["type"], len(w["data"]), w["task"], wire[first_end]["type"], types)))
         if any(t == "EOF" for t in types[first_end + 1:]) and types[first_end] == "CLOSE":
             classes.add("eof-after-close-on-wire(not-asserted)")
-    # clause 4
+    # clause 4, on the history: an operation that STARTED after both CLOSEs had been exchanged puts nothing on the wire (and the
+    # ones that are asked to transmit something raise)
+    rel = None
+    i_close = next((li for li, ev in enumerate(log) if ev[0] == "wire" and ev[1]["type"] == "CLOSE"), None)
+    i_peer = next((li for li, ev in enumerate(log) if ev[0] == "peer-close-handled"), None)
+    if i_close is not None and i_peer is not None:
+        rel = max(i_close, i_peer)
+        cur = {}  # task -> (log index of op-start, op name)
+        for li, ev in enumerate(log):
+            if ev[0] == "op-start":
+                cur[ev[1]] = (li, ev[2])
+                if li > rel and ev[2] != "await_released" and ev[1] != "transport":
+                    classes.add("operation-started-after-release:" + ev[2].split(":")[0])
+            elif ev[0] == "op-end" and li > rel:
+                st_, name = cur.get(ev[1], (None, None))
+                if st_ is not None and st_ > rel and name.split(":")[0] in MUST_RAISE and ev[3] is None:
+                    viol.append(("operation-after-release-succeeds", name.split(":")[0], "%s started after both CLOSEs were exchanged and returned normally; wire=%r" % (name, types)))
+            elif ev[0] in ("wire", "dropped") and li > rel:
+                st_, name = cur.get(ev[1].get("task"), (None, None))
+                if st_ is None or ev[1].get("task") == "transport":
+                    continue
+                if st_ > rel:
+                    viol.append(("operation-after-release-sends", name.split(":")[0], "%s (task %s) started after both CLOSEs were exchanged and put %s on the wire: %r" % (name, ev[1].get("task"), ev[1]["type"], types)))
+                else:
+                    classes.add("message-after-release-from-operation-already-in-flight(not-asserted)")
+    # clause 4, probes after the run
     if finished and bench.peer_close_dispatched and n_close >= 1:
         classes.add("both-closes-exchanged")
         if bench.ft._channels.get(1) is not None:
@@ -359,7 +510,7 @@ def judge(bench, res):
         for name, r, logged in bench.probe():
             if logged:
                 viol.append(("operation-after-release-sends", name, "%s after both CLOSEs put %d message(s) on the wire (%r)" % (name, logged, r)))
-            elif r[0] != "raised":
+            elif r[0] != "raised" and name in MUST_RAISE:
                 viol.append(("operation-after-release-succeeds", name, "%s after both CLOSEs %r" % (name, r)))
     if res.outcome == "deadlock":
         classes.add("deadlock(blocked recv/send/request; not judged here)")
@@ -484,7 +635,9 @@ def run_dfs(ctx, programs, k, trace, limit, label):
 
 def run(ctx):
     ctx.set_budget(60, 840)
-    ctx.explore(case_st, lambda c: execute(ctx, c), ctx.scale(5000, 30000))
+    ctx.explore(case_st, lambda c: execute(ctx, c), ctx.scale(3600, 24000))
+    ctx.explore(late_case_st, lambda c: execute(ctx, c, extra_classes=("late-task-program",)), ctx.scale(1000, 7000), seed_offset=5)
+    ctx.explore(zero_window_case_st, lambda c: execute(ctx, c, extra_classes=("zero-window-program",)), ctx.scale(800, 5000), seed_offset=6)
     if ctx.tier == "thorough":
         p2 = dfs_programs(2)
         ok1 = run_dfs(ctx, p2[ctx.worker :: ctx.nworkers], 3, False, 300000, "k3-2task")
